@@ -157,6 +157,114 @@ Theorem C09_comm_ok_sound_send : forall cl live s p ops x obs,
 Proof. exact comm_ok_sound_send. Qed.
 Print Assumptions C09_comm_ok_sound_send.
 
+(* Admission versus teardown.  The deferred cleanup of Execute performs CloseSession, then clears
+   the pending flag (under the lock), then stops the processes.  For every number of processes and
+   every moment k (number of completed teardown steps) at which a request for the same session id
+   arrives: it is refused as long as the flag is set (in particular while CloseSession is still
+   running); if it is admitted, the session has been closed and no CloseSession of the old run is
+   still to come (it would hit the streams of the new run); in the end the session is closed once,
+   the flag is clear and every process was stopped exactly once. *)
+Theorem C09_teardown_order : forall np k,
+  let st := arrive (code_teardown np) k in
+  (k <= 1 -> admitted_at (code_teardown np) k = false) /\
+  (t_pend st = true -> admitted_at (code_teardown np) k = false) /\
+  (admitted_at (code_teardown np) k = true ->
+     t_closed st = 1 /\ late_closes (code_teardown np) k = 0) /\
+  (let fin := trun tinit (code_teardown np) in
+   t_closed fin = 1 /\ t_pend fin = false /\ forall p, p < np -> count_occ Nat.eq_dec (t_stops fin) p = 1).
+Proof. exact teardown_order. Qed.
+Print Assumptions C09_teardown_order.
+
+(* For ANY order of the teardown steps: if every CloseSession precedes the clearing of the flag, a
+   request admitted at any moment has no CloseSession of the old run coming after it - and if not,
+   there is a moment at which a request is admitted with such a CloseSession still to come. *)
+Theorem C09_teardown_safe_iff_close_first : forall order,
+  (closes_before_clear order = true ->
+     forall k, admitted_at order k = true -> late_closes order k = 0) /\
+  (closes_before_clear order = false ->
+     exists k, admitted_at order k = true /\ 1 <= late_closes order k).
+Proof. exact teardown_safe_iff_close_first. Qed.
+Print Assumptions C09_teardown_safe_iff_close_first.
+
+(* The swapped order (flag cleared before CloseSession - "don't hold up new requests") is refuted
+   for every number of processes: a request arriving right after the flag was cleared is admitted,
+   the session is not closed yet, and the old run's CloseSession comes after it. *)
+Theorem C09_teardown_early_clear_refuted : forall np,
+  admitted_at (early_clear_teardown np) 1 = true /\
+  t_closed (arrive (early_clear_teardown np) 1) = 0 /\
+  late_closes (early_clear_teardown np) 1 = 1.
+Proof. exact early_clear_refuted. Qed.
+Print Assumptions C09_teardown_early_clear_refuted.
+
+(* The judge of the tear cases accepts the model wherever the teardown is parked, and what it
+   accepts means: a request admitted during the teardown found the session closed and no old process
+   running, no CloseSession came after its admission; Execute did not return with a teardown step
+   outstanding; every process stopped exactly once, the session closed, the id startable again. *)
+Theorem C09_tear_ok_model : forall np at_,
+  let order := code_teardown np in
+  let k := tear_pos at_ in
+  let fin := trun tinit order in
+  tear_ok np (model_dec np at_) (model_dec np at_) (t_closed (arrive order k))
+          (if admitted_at order k then late_closes order k else 0) 0 false
+          (stops_vec np fin) (t_closed fin) true (t_pend fin) = true.
+Proof. exact tear_ok_model. Qed.
+Print Assumptions C09_tear_ok_model.
+
+Theorem C09_tear_ok_sound : forall np dec fin cb late live rp sa cl third pa,
+  tear_ok np dec fin cb late live rp sa cl third pa = true ->
+  (dec = TAdmitted -> 1 <= cb /\ live = 0) /\
+  (fin = TAdmitted -> late = 0) /\ fin <> TWaited /\
+  rp = false /\ sa = repeat 1 np /\ 1 <= cl /\ third = true /\ pa = false.
+Proof. exact tear_ok_sound. Qed.
+Print Assumptions C09_tear_ok_sound.
+
+(* Libp2pCommunication with faults at the streams, for ALL sequences of sends and CloseSessions,
+   whichever NewStream calls fail and whatever the first write on each stream does (wf): nothing is
+   written to a stream a CloseSession released, CloseSession s releases every stream that was opened for s since
+   its last CloseSession - also one whose first write failed - and no stream another session uses. *)
+Theorem C09_wcomm_ok_model : forall wf P S ops, wpeers_below P ops = true ->
+  wcomm_ok S [] [] (fun _ => []) ops (model_wobs RegOnOpen wf P (sm_empty, 0) ops) = true.
+Proof. exact wcomm_ok_model. Qed.
+Print Assumptions C09_wcomm_ok_model.
+
+Theorem C09_wcomm_ok_sound_close : forall S cl rl live s ops xs obs,
+  wcomm_ok S cl rl live (WClose s :: ops) (WClosed xs :: obs) = true ->
+  (forall x, In x (live s) -> In x xs \/ In x cl \/ In x rl) /\
+  (forall s' x, s' < S -> s' <> s -> In x (live s') -> ~ In x xs) /\
+  wcomm_ok S (xs ++ cl) rl (upd live s []) ops obs = true.
+Proof. exact wcomm_ok_sound_close. Qed.
+Print Assumptions C09_wcomm_ok_sound_close.
+
+Theorem C09_wcomm_ok_sound_send : forall S cl rl live s p f ops o w r obs,
+  wcomm_ok S cl rl live (WSend s p f :: ops) (WSent o w r :: obs) = true ->
+  (forall x, In x w \/ In x o -> ~ In x cl) /\
+  wcomm_ok S cl (r ++ rl) (upd live s (o ++ w ++ live s)) ops obs = true.
+Proof. exact wcomm_ok_sound_send. Qed.
+Print Assumptions C09_wcomm_ok_sound_send.
+
+(* Registering a fresh stream only after its first write succeeded is refuted: the stream whose
+   first write fails is not released by CloseSession. *)
+Theorem C09_wcomm_register_after_write_refuted :
+  exists wf ops, wpeers_below 2 ops = true /\
+    wcomm_ok 1 [] [] (fun _ => []) ops (model_wobs RegAfterWrite wf 2 (sm_empty, 0) ops) = false.
+Proof. exact reg_after_write_refuted. Qed.
+Print Assumptions C09_wcomm_register_after_write_refuted.
+
+(* Non-vacuity of the tear and commw cases: two processes, the teardown parked inside CloseSession
+   (the request is refused) and inside Stop of process 1 (admitted, session closed, process 0
+   stopped); a session whose first stream fails to open, whose second gets a failing first write,
+   closed, restarted on a fresh stream. *)
+Example C09_tear_nonvacuous :
+  model_dec 2 0 = TRefused /\ model_dec 2 2 = TAdmitted /\
+  t_closed (arrive (code_teardown 2) (tear_pos 2)) = 1 /\
+  stops_vec 2 (arrive (code_teardown 2) (tear_pos 2)) = [1; 0] /\
+  closes_before_clear (code_teardown 2) = true /\ closes_before_clear (early_clear_teardown 2) = false /\
+  let ops := [WSend 0 1 true; WSend 0 1 false; WSend 0 2 false; WClose 0; WSend 0 1 false; WClose 0] in
+  wpeers_below 3 ops = true /\
+  model_wobs RegOnOpen (fun x => Nat.eqb x 0) 3 (sm_empty, 0) ops =
+    [WSent [] [] []; WSent [0] [0] []; WSent [1] [1] []; WClosed [0; 1]; WSent [2] [2] []; WClosed [2]].
+Proof. vm_compute. repeat split. Qed.
+
 (* Non-vacuity: three requests for one session id and one for another, a complete schedule: the
    hypotheses of C09_conc_ok_model hold, one request per id runs, two are refused; and a feasible
    session trace. *)
